@@ -46,7 +46,7 @@ var pureStd = map[string]bool{
 	"strings.LastIndex": true, "strings.SplitN": true, "strings.Title": true, "strings.IndexAny": true, "strings.Map": true,
 	"strconv.Itoa": true, "strconv.Quote": true, "strconv.FormatInt": true,
 	"encoding/hex.EncodeToString": true, "(*encoding/base64.Encoding).EncodeToString": true,
-	"bytes.Equal": true, "bytes.HasPrefix": true, "bytes.Compare": true,
+	"bytes.HasPrefix": true, "bytes.Compare": true,
 	"unicode.IsUpper": true, "unicode.IsLower": true, "unicode.IsDigit": true, "unicode.IsLetter": true, "unicode.IsSpace": true,
 	"math.Abs": true, "math.Floor": true,
 	"slices.Contains": true, "slices.Equal": true, "slices.Index": true,
@@ -55,6 +55,7 @@ var pureStd = map[string]bool{
 	"(io/fs.FileInfo).Name": true, "(io/fs.FileInfo).Size": true, "(io/fs.FileInfo).Mode": true, "(io/fs.FileInfo).IsDir": true,
 	"(io/fs.FileMode).IsDir": true, "(io/fs.FileMode).IsRegular": true, "(io/fs.FileMode).Type": true, "(io/fs.FileMode).Perm": true,
 	"(hash.Hash).Size": true, "(error).Error": true,
+	"path/filepath.Split": true, "path.Split": true, "(*os.File).Name": true,
 }
 
 type stdModel func(e *Exec, st *State, args []Val, x *ast.CallExpr) Val
@@ -74,6 +75,12 @@ func init() {
 		},
 		"strings.Contains": func(e *Exec, st *State, a []Val, x *ast.CallExpr) Val {
 			return Val{T: App(SBool, "str.contains", a[0].T, a[1].T), GT: boolT}
+		},
+		// bytes.Equal is an equivalence relation: equality of an abstract "contents" value (quantifier-free)
+		"bytes.Equal": func(e *Exec, st *State, a []Val, x *ast.CallExpr) Val {
+			so := a[0].T.Sort
+			fn := e.sc.Fun("bytes.contents:"+so, []string{so}, SInt)
+			return Val{T: Eq(App(SInt, fn, a[0].T), App(SInt, fn, a[1].T)), GT: boolT}
 		},
 		"strings.Index": func(e *Exec, st *State, a []Val, x *ast.CallExpr) Val {
 			return Val{T: App(SInt, "str.indexof", a[0].T, a[1].T, IntLit(0)), GT: intT}
@@ -895,6 +902,7 @@ func (e *Exec) pureCall(st *State, name string, sig *types.Signature, recv *Val,
 		}
 		v := Val{T: t, GT: rt}
 		e.typeFactsGlobal(v)
+		e.pureRangeAxiom(fn, sorts, rs, rt)
 		return v
 	}
 	switch sig.Results().Len() {
@@ -957,6 +965,12 @@ func (e *Exec) callByContract(st *State, fc *FuncContract, sig *types.Signature,
 	// bind results
 	bindResults(env, sig, res)
 	for _, en := range fc.Ensures {
+		if e.binders > 0 {
+			break // under a binder or in a spec body the arguments are bound variables: no per-call facts
+		}
+		if fc.mentionsOwnGhost(en) {
+			continue // about the callee's own ghost state (calls it made): means nothing to a caller
+		}
 		g := e.evContract(st, en.Expr, env)
 		e.assume(st, g)
 	}
@@ -1135,4 +1149,46 @@ func (e *Exec) inline(st *State, pkg *packages.Package, node ast.Node, ft *ast.F
 		res = Val{Tuple: mvals}
 	}
 	return res
+}
+
+// pureRangeAxiom states once per pure function symbol that its results are well-typed Go values (slice
+// lengths are non-negative, nil slices are empty, sized integers are in range) for ALL arguments, so that
+// applications under quantifiers (which get no per-term facts) are covered too.
+func (e *Exec) pureRangeAxiom(fn string, sorts []string, rs string, rt types.Type) {
+	if len(sorts) == 0 {
+		return
+	}
+	if e.pureTyped == nil {
+		e.pureTyped = map[string]bool{}
+	}
+	if e.pureTyped[fn] {
+		return
+	}
+	e.pureTyped[fn] = true
+	var binders, vars []string
+	for i, so := range sorts {
+		binders = append(binders, fmt.Sprintf("(|pa?%d| %s)", i, so))
+		vars = append(vars, fmt.Sprintf("|pa?%d|", i))
+	}
+	app := "(" + fn + " " + strings.Join(vars, " ") + ")"
+	var fact string
+	switch u := rt.Underlying().(type) {
+	case *types.Slice:
+		if !isSlcSort(rs) {
+			return
+		}
+		fact = fmt.Sprintf("(and (>= (slc_len %s) 0) (=> (not (slc_nn %s)) (= (slc_len %s) 0)))", app, app, app)
+	case *types.Basic:
+		if u.Info()&types.IsInteger == 0 || rs != SInt {
+			return
+		}
+		lo, hi, ok := intRange(rt)
+		if !ok {
+			return
+		}
+		fact = fmt.Sprintf("(and (<= %s %s) (<= %s %s))", lo, app, app, hi)
+	default:
+		return
+	}
+	e.sc.Assert(T(SBool, fmt.Sprintf("(forall (%s) (! %s :pattern (%s)))", strings.Join(binders, " "), fact, app)))
 }
